@@ -213,3 +213,79 @@ pub fn spare_string(s: &str) -> String {
     o.push_str(s);
     o
 }
+
+/// Values offered for one argument of `bits` bits when the question is "does any rule key on a particular value?".
+/// Whole domain up to 8 bits (thorough: up to 16); beyond that: small integers, the top of the range, the middle, every
+/// power of two with its neighbours, every byte lane through a set of values (thorough: all 256) over an ordinary, a zero
+/// and an all-ones background, and the ordinary value rounded down to common alignments.
+pub fn value_set(bits: u32, ordinary: u64, quick: bool) -> Vec<u64> {
+    let bits = bits.min(64);
+    let mask = if bits >= 64 { u64::MAX } else { (1u64 << bits) - 1 };
+    if bits <= 8 || (bits <= 16 && !quick) {
+        return (0..=mask).collect();
+    }
+    let mut v: Vec<u64> = vec![];
+    let small = if quick { 300 } else { 4096 };
+    v.extend(0..=small.min(mask));
+    let top = if quick { 4 } else { 300 };
+    v.extend((0..=top).map(|d| mask - d));
+    let mid = mask >> 1;
+    v.extend((0..6).map(|d| mid - 2 + d));
+    for k in 0..bits {
+        let p = 1u64 << k;
+        v.extend([p, p.wrapping_sub(1), p + 1]);
+    }
+    let lane_vals: Vec<u64> = if quick { vec![0, 1, 0x7f, 0x80, 0xfe, 0xff] } else { (0..256).collect() };
+    for lane in 0..(bits / 8) {
+        for lv in &lane_vals {
+            for bg in [ordinary, 0, mask] {
+                v.push((bg & !(0xffu64 << (8 * lane))) | (lv << (8 * lane)));
+            }
+        }
+    }
+    for k in [1u32, 2, 3, 4, 6, 8, 12, 16, 20, 21, 30, 32, 40, 48] {
+        if k < bits {
+            v.push(ordinary & !((1u64 << k) - 1));
+            v.push((ordinary & !((1u64 << k) - 1)) | 1);
+        }
+    }
+    v.extend([0x1000u64, 0x10_0000, 0xfed4_0000, 0x8000_0000, 0xffff_f000, 0x1_0000_0000, 0xfffe, 0xfffe_0000]);
+    for x in v.iter_mut() {
+        *x &= mask;
+    }
+    v.sort();
+    v.dedup();
+    v
+}
+
+/// every combination of values of the enumerated / boolean arguments in `dims` (index, cardinality), or — when there are
+/// more than `cap` of them — each such argument through its values on its own
+pub fn enum_combos(dims: &[(usize, usize)], cap: usize) -> Vec<Vec<(usize, u64)>> {
+    let total: usize = dims.iter().map(|d| d.1.max(1)).product();
+    if dims.is_empty() {
+        return vec![vec![]];
+    }
+    if total <= cap {
+        let mut out = vec![vec![]];
+        for (i, n) in dims {
+            let mut next = vec![];
+            for c in &out {
+                for v in 0..*n.max(&1) {
+                    let mut c2: Vec<(usize, u64)> = c.clone();
+                    c2.push((*i, v as u64));
+                    next.push(c2);
+                }
+            }
+            out = next;
+        }
+        out
+    } else {
+        let mut out = vec![vec![]];
+        for (i, n) in dims {
+            for v in 0..*n {
+                out.push(vec![(*i, v as u64)]);
+            }
+        }
+        out
+    }
+}
